@@ -159,6 +159,16 @@ def search(ctx):
         if f is None: continue
         ev += 1; dist['cubic'] = dist.get('cubic', 0) + 1; seen.add((gen.seg_key(c), t))
         if f: fails.append({'class': 'C15-cubic', 'what': f[0], 'input': {'kind': 'cubic', 'segment': gen.seg_json(c), 't': t}, 'observed': f, 'expected': 'within 2% of the length'})
+    # handles bunched at one end: the curve is traversed very unevenly in t (the last tenth of the parameter covers most of the length); queries in the fast part
+    for _ in range(ctx.n(25, 400)):
+        a = P(rng.uniform(-100, 100), rng.uniform(-100, 100)); far = P(rng.uniform(400, 1200) * rng.choice([-1, 1]), rng.uniform(200, 800) * rng.choice([-1, 1]))
+        c = CubicBezier(a, a + P(rng.uniform(2, 8), rng.uniform(1, 5)), a + P(rng.uniform(9, 16), rng.uniform(3, 8)), a + far)
+        t = rng.choice([rng.uniform(0.85, 0.999), (rng.randint(42, 49) + rng.uniform(0.35, 0.65)) / 50.0])       # also: midway between multiples of 1/50
+        if rng.random() < 0.5: c = CubicBezier(c[3], c[2], c[1], c[0]); t = 1 - t
+        f = check_cubic(c, t)
+        if f is None: continue
+        ev += 1; dist['cubic/bunched-handles'] = dist.get('cubic/bunched-handles', 0) + 1; seen.add((gen.seg_key(c), t))
+        if f: fails.append({'class': 'C15-cubic', 'what': f[0], 'input': {'kind': 'cubic', 'segment': gen.seg_json(c), 't': t}, 'observed': f, 'expected': 'within 2% of the length'})
     # stale state: look up, edit the segment in place, look up again (a cached lookup table must not survive the edit)
     for _ in range(ctx.n(40, 800)):
         s0 = gen_cubic(rng) if rng.random() < 0.6 else gen_quad(rng)[1]
